@@ -115,6 +115,10 @@ EXTRA3 = {'C01': ' Round 6: the coding name in upper and mixed case.', 'C04': ' 
 for _k, _v in EXTRA3.items():
     C[_k]["text"] += _v
 
+EXTRA4 = {'C01': ' Round 7: announced lengths with leading zeros.', 'C03': ' Round 7: obs-text inside a Transfer-Encoding line (found F21); an HTTP/1.0 status line; zero-padded lengths.', 'C04': ' Round 7: very large max_headers values leave ordinary heads alone.', 'C07': ' Round 7: compression off with an Accept-Encoding of the caller; a prepared request sent again after a transmission that broke off in the body (70 KB bodies of five kinds).', 'C08': ' Round 7: an http proxy that cannot be reached (refused, timed out, reset, no such host): the request fails and nothing else is dialled.', 'C09': ' Round 7: non-http Locations with proxies configured.', 'C11': ' Round 7: bare host names as proxy values; bracketed IPv6 entries in NO_PROXY.', 'C12': " Round 7: proxy credentials whose base64 form needs '+'.", 'C13': ' Round 7: identity bodies cut by the deadline, also behind the last-chunk line; a connect timeout shorter than a far deadline.', 'C15': ' Round 7: forms with a large part sent again after a transmission that broke off.', 'C17': ' Round 7: burst arrivals (two results in the channel before the connecting thread looks at the first).'}
+for _k, _v in EXTRA4.items():
+    C[_k]["text"] += _v
+
 PENDING = {
 }
 all_ids = [f"C{i:02d}" for i in range(1, 20)]
